@@ -47,9 +47,18 @@ def _registered(node):
     out = []
     for n in ast.walk(node):
         if isinstance(n, ast.Call) and isinstance(n.func, ast.Attribute) and n.func.attr in (
-                '_register_typing_import', '_register_adhoc_import') and n.args and isinstance(n.args[0], ast.Constant):
-            out.append(('typing' if n.func.attr == '_register_typing_import' else 'adhoc', n.args[0].value))
+                '_register_typing_import', '_register_adhoc_import') and n.args:
+            kind = 'typing' if n.func.attr == '_register_typing_import' else 'adhoc'
+            if isinstance(n.args[0], ast.Constant):
+                out.append((kind, n.args[0].value))
+            else:
+                out.append((kind + '-expr', ast.unparse(n.args[0])))      # a computed statement: its source text
     return out
+
+
+def _guards(node):
+    """source text of the `if` tests below `node` that guard a registration"""
+    return [ast.unparse(n.test) for n in ast.walk(node) if isinstance(n, ast.If) and _registered(n)]
 
 
 @extractor
@@ -89,7 +98,7 @@ def stub_callbacks(repo):
         if isinstance(n, ast.Dict) and n.keys and all(isinstance(k, ast.Name) for k in n.keys):
             keys = [(k.id, v.id if isinstance(v, ast.Name) else ast.unparse(v)) for k, v in zip(n.keys, n.values)]
     by_name = {n.name: n for n in fn.body if isinstance(n, ast.FunctionDef)}
-    fmt, regs = [], []
+    fmt, regs, guards = [], [], []
     for key, cb in keys:
         f = by_name.get(cb)
         if f is None:
@@ -98,6 +107,8 @@ def stub_callbacks(repo):
         fmt.append((key, ret))
         for kind, what in _registered(f):
             regs.append((key, kind + ':' + what))
+        for g in _guards(f):
+            guards.append((key, g))
     other = []
     for name in ('_generate_typevars', '_generate_struct_or_union_class_custom_annotations',
                  '_generate_struct_class_init', '_generate_annotation_type_class_init'):
@@ -115,6 +126,7 @@ def stub_callbacks(repo):
         _pairs('stubOverrideCallbacks', keys),
         _pairs('stubCallbackFormats', fmt),
         _pairs('stubCallbackRegisters', regs),
+        _pairs('stubCallbackGuards', guards),
         _pairs('stubOtherRegisters', other),
         _pairs('stubEmitTemplates', lits),
     ])
